@@ -29,6 +29,9 @@ type Case struct {
 	Status   int    `json:"status"`
 	Trace    bool   `json:"trace"`
 	UseLate  bool   `json:"use_late"` // Use after the registrations instead of before
+	// Sib: group subjects only - before ("before") or after ("after") the subject router, Group.New makes a sibling
+	// router with a recovery function of its own (matcher /v9: no request of the case goes there)
+	Sib string `json:"sib,omitempty"`
 	Reqs     []Rq   `json:"reqs"`
 }
 
@@ -44,6 +47,9 @@ func gen(t *rapid.T) Case {
 		Status:   rapid.SampledFrom([]int{500, 503, 418}).Draw(t, "status"),
 		Trace:    rapid.Bool().Draw(t, "trace"),
 		UseLate:  rapid.Bool().Draw(t, "useLate"),
+	}
+	if c.Subject != "router" {
+		c.Sib = rapid.SampledFrom([]string{"", "", "before", "after"}).Draw(t, "sib")
 	}
 	for i, n := 0, rapid.IntRange(1, 8).Draw(t, "nreqs"); i < n; i++ {
 		q := Rq{Method: rapid.SampledFrom(methods).Draw(t, "m"), Path: rapid.SampledFrom(paths).Draw(t, "path")}
@@ -66,6 +72,7 @@ type world struct {
 	h      http.Handler
 	recov  []any
 	grecov []any // calls of the group's own recovery function (subject gnewboth)
+	srecov []any // calls of the sibling router's recovery function: must stay empty
 }
 
 type marker struct{ n int }
@@ -99,6 +106,16 @@ func build(c Case) *world {
 		o, _ := w.env.Options(rig.Opts{Trace: true})
 		return o
 	}
+	sibling := func(g *rig.Group, when string) {
+		if c.Sib != when {
+			return
+		}
+		sr := g.New("sib", mux.NewPathVersion("", "v9"), mux.WithRecovery(func(rw http.ResponseWriter, v any) {
+			w.srecov = append(w.srecov, v)
+			rw.WriteHeader(597)
+		}))
+		sr.Handle("/a", w.env.NewH(), nil, "GET")
+	}
 	switch c.Subject {
 	case "router":
 		r := w.env.NewRouter("r", rig.Opts{Trace: c.Trace, Extra: opts})
@@ -107,7 +124,9 @@ func build(c Case) *world {
 	case "gnew":
 		g := w.env.NewGroup(opts...)
 		g.Use(w.env.NewMW("mg"))
+		sibling(g, "before")
 		r := g.New("r", mux.NewPathVersion("", "v1"), traceOpt()...)
+		sibling(g, "after")
 		populate(r)
 		w.h = g
 	case "gnewboth": // the group has a recovery function of its own; Group.New overrides it for the router
@@ -118,20 +137,26 @@ func build(c Case) *world {
 		g := w.env.NewGroup(gopt)
 		g.Use(w.env.NewMW("mg"))
 		// with recovery "none" the router gets no option of its own and inherits the group's function
+		sibling(g, "before")
 		r := g.New("r", mux.NewPathVersion("", "v1"), append(traceOpt(), opts...)...)
+		sibling(g, "after")
 		populate(r)
 		w.h = g
 	case "gnewown": // the group has no recovery option; the router made by Group.New gets its own
 		g := w.env.NewGroup()
 		g.Use(w.env.NewMW("mg"))
+		sibling(g, "before")
 		r := g.New("r", mux.NewPathVersion("", "v1"), append(traceOpt(), opts...)...)
+		sibling(g, "after")
 		populate(r)
 		w.h = g
 	default:
 		g := w.env.NewGroup(opts...)
+		sibling(g, "before")
 		r := w.env.NewRouter("r", rig.Opts{Trace: c.Trace, Extra: opts})
 		populate(r.Router)
 		g.Add(mux.NewPathVersion("", "v1"), r.Router)
+		sibling(g, "after")
 		g.Use(w.env.NewMW("mg"))
 		w.h = g
 	}
@@ -199,6 +224,9 @@ func check(c Case, st *rig.Stats) error {
 		where := fmt.Sprintf("request %d %+v (subject %s, recovery %s, trace %v); normal outcome: %s", i, q, c.Subject, c.Recovery, c.Trace, summary(normal))
 		calls := len(sub.recov) - nrec
 		gcalls := len(sub.grecov) - ngrec
+		if len(sub.srecov) != 0 {
+			return rig.Violf("foreign-recovery-function", "%s: the recovery function given only to a sibling router (Group.New(\"sib\", /v9, WithRecovery(f))) was called with %#v", where, sub.srecov[0])
+		}
 		groupLevel := normal.RouterName == "" // served by the group itself (its not-found handler), not by a router
 		if c.Subject == "gnewboth" {
 			switch {
@@ -259,6 +287,9 @@ func check(c Case, st *rig.Stats) error {
 				nontriv = true
 			}
 		}
+	}
+	if c.Sib != "" {
+		classes = append(classes, "sibling-router-with-its-own-recovery:"+c.Sib)
 	}
 	st.Eval(c, nontriv, classes...)
 	return nil
